@@ -1,7 +1,8 @@
 """C16 - generators and codecs accept exactly their documented domain."""
 from harness import core, framework as fw
 
-HOSTILE = ["０", "٣", "²", "+", "-", "_", " ", "\x00", "\n", "\t", "A", "a", "z", "é", "٠", "\U0001d7d8", ".", "/", ":"]
+HOSTILE = ["０", "٣", "²", "+", "-", "_", " ", "\x00", "\n", "\t", "A", "a", "z", "é", "٠", "\U0001d7d8", ".", "/", ":",
+           "\ufb00", "\u212a", "\u017f", "\u0131"]      # the last four: upper() / lower() gives "FF", "k", "S", "I"
 DIG = "0123456789"
 HEX = "0123456789abcdefABCDEF"
 
@@ -154,6 +155,9 @@ def run(ctx):
                     for k in (2, 3, 16) for i in range(0, len(alpha) - k + 1)]
             for v in list(HEX) + HOSTILE + ["", "FF", "0F", "G", "g", "0123456789ABCDEFabcdef", "F ", " F", "F\n", "0x", "0xF"] + sorted(set(runs)):
                 cases.append((fn, (pvk, table, "1234", pan, 0, 12, v)))
+                if len(v) == 1 and v not in HEX:
+                    cases.append((fn, (pvk, table, "1234", pan, 0, 16, v)))       # windows that need no pad character
+                    cases.append((fn, (pvk, table, "1234", pan, 0, 0, v)))
             for off in range(0, 19):
                 for ln in (0, 1, 16 - off, 17 - off, 18):
                     if ln >= 0:
